@@ -97,6 +97,8 @@ struct MaskType {
     /// appends at most `cap` yielded values of iter_submasks(x) to `out`
     sub: fn(u128, usize, &mut Vec<u128>),
     sup: fn(u128, usize, &mut Vec<u128>),
+    /// one random script of Iterator calls (common::iter_protocol) on a fresh iterator against the expected sequence
+    proto: fn(u128, Dir, &[u128], &mut Rng) -> Result<u64, String>,
 }
 
 macro_rules! mask_type {
@@ -111,6 +113,14 @@ macro_rules! mask_type {
             sup: |x, cap, out| {
                 let x = x as $u as $t;
                 lib!(out.extend(iter_supermasks(x).take(cap).map(|v| v as $u as u128)));
+            },
+            proto: |x, dir, want, rng| {
+                let x = x as $u as $t;
+                let want_t: Vec<$t> = want.iter().map(|&w| w as $u as $t).collect();
+                match dir {
+                    Dir::Sub => common::iter_protocol(iter_submasks(x), &want_t, rng, 10),
+                    Dir::Sup => common::iter_protocol(iter_supermasks(x), &want_t, rng, 10),
+                }
             },
         }
     };
@@ -330,6 +340,28 @@ fn mask_case(cx: &mut Ctx, types: &[MaskType], tyi: usize, dir: Dir, x: u128, cr
                 .set("window_starts_at", pos.saturating_sub(2)),
             vec!["--case".into(), replay.clone()],
         );
+    }
+    else if want.len() <= 2048 {
+        // the same iterator through random scripts of Iterator calls (nth, by_ref adaptors, fold-based terminals)
+        let mut r = Rng::new(mix(&[0x15c, tyi as u64, dir as u64, x as u64, (x >> 64) as u64]));
+        for _ in 0..2 {
+            let res = catch(|| (ty.proto)(x, dir, want, &mut r));
+            match res {
+                Ok(Ok(calls)) => cx.rep.count("iterator_protocol_calls", calls),
+                Ok(Err(e)) => {
+                    cx.rep.violation(
+                        format!("{}:{}:protocol", dir.name(), ty.name),
+                        base().set("what", format!("{} seen through standard Iterator calls does not behave like the expected sequence", dir.func())).set("script", e).set("want_len", want.len()),
+                        vec!["--case".into(), replay.clone()],
+                    );
+                    break;
+                }
+                Err(p) => {
+                    cx.lib_panic(dir.func(), &p, base(), &replay);
+                    break;
+                }
+            }
+        }
     }
     if cx.sample {
         cx.rep.sample(
@@ -631,6 +663,14 @@ fn check_iter<T: Ord + Clone + Debug>(cx: &mut Ctx, kind: &str, input: &[T], lis
                     let last = lib!(iter_permutations(inp.clone()).take(n + 2).last());
                     if last.as_ref() != list.last() {
                         bad.push(format!("last() = {:?}, want {:?}", last, list.last()));
+                    }
+                    // random scripts of Iterator calls against std's slice iterator over the expected listing
+                    let mut r = Rng::new(mix(&[0x9e12, salt as u64, n as u64]));
+                    for _ in 0..2 {
+                        if let Err(e) = common::iter_protocol(iter_permutations(inp.clone()), list, &mut r, 10) {
+                            bad.push(format!("script of Iterator calls: {}", trunc(e, 600)));
+                            break;
+                        }
                     }
                     bad
                 });
